@@ -100,6 +100,10 @@ def execStep (st : ExecDrvSt) (op : String) (a : KV) : ExecDrvSt × String :=
       (exCount (exCount st o1.ran) o2.ran,
        s!"run1={exFmtRun o1.res} marker1={exB01 o1.ran} run2={exFmtRun o2.res} marker2={exB01 o2.ran}")
     | _ => (st, "bad-trace")
+  | "ex.rel" =>
+    -- a relative path: checked and started file are the same (root-owned, 0755) one; it runs and prints its output
+    let o := safeCmdExecution .resolved (.ok { uid := 0, gid := 0, mode := 0o755 }) (.exits 0 "7\n") 2000
+    (exCount st o.ran, s!"run={exFmtRun o.res} good={exB01 o.ran} bad=0")
   | "ex.busy" =>
     -- the file passes the check, the start fails (text file busy): an error, nothing executed; what happens to the
     -- file afterwards does not matter because the call is over
